@@ -30,8 +30,8 @@ def source_bound():
 TERM = [1, 2, 3, 4, 5, 6, 7, 8, 9, 10, 11, 12, 13, 14, 15, 16, 24, 25, 26, 27, 29, 30, 31]
 STOP = [19, 20, 21, 22]
 IGN = [17, 18, 23, 28]
-RULE = ("(a) scripted: every outcome stream of length <= 4 (quick) / <= 6 (thorough) over {EINTR, error, exit 0, exit k, killed, stopped, "
-        "continued} with boundary-weighted codes (exit 1/255/128, signals 1..126 with and without core flag, stop signals 0..255), EINTR runs "
+RULE = ("(a) scripted: every outcome stream of length <= 5 (quick) / <= 6 (thorough) over {EINTR, error, exit 0, exit k, killed, "
+        "stopped} with boundary-weighted codes (exit 1/255/128, signals 1..126 with and without core flag, stop signals 0..255), EINTR runs "
         "of every length 0..tolerated+9 before each ending and split by stops (the counter is not reset), fork failure; (b) real children: "
         "raise(sig) for every signal 1..31 at each of the five points (plugin pre action, setup, body, teardown, plugin post action), "
         "_exit(k) (sampled in quick, all 256 in thorough), failing checks in every phase combination (setup failure skipping a deadly body), "
@@ -71,7 +71,7 @@ def rnd_out(rng, kind):
     return {"ei": ":ei", "er": ":er", "c": ":c"}[kind]
 
 
-ALPHA = ["ei", "er", "x0", "x", "k", "s", "c"]
+ALPHA = ["ei", "er", "x0", "x", "k", "s"]
 
 
 def streams(n):
@@ -131,7 +131,7 @@ def rnd_scr(rng, tol):
         k = rng.choice([tol - 1, tol, tol + 1, tol + 2, rng.randrange(0, tol + 9)])
         outs = [":ei"] * k
         for _ in range(rng.randrange(0, 4)):
-            outs.insert(rng.randrange(len(outs) + 1), rnd_out(rng, rng.choice(["s", "c", "s"])))
+            outs.insert(rng.randrange(len(outs) + 1), rnd_out(rng, "s"))
         if rng.random() < 0.8:
             outs.append(rnd_out(rng, rng.choice(["x0", "x", "k", "er", "x0"])))
         return scr(1, outs)
@@ -155,16 +155,16 @@ def generate(tier, rng):
     quick = tier == "quick"
     out = []
     # (a) scripted, exhaustive shapes
-    for n in range(0, (4 if quick else 6) + 1):
+    for n in range(0, (5 if quick else 6) + 1):
         for st in streams(n):
             out.append(scen(0, [scr(1, [rnd_out(rng, a) for a in st])]))
     for k in range(0, tol + 10):
-        for end in (["x0", "x", "k", "er", "s", "c", None] if not quick or k >= tol - 2 or k < 3 else ["x0", "k"]):
+        for end in (["x0", "x", "k", "er", "s", None] if not quick or k >= tol - 2 or k < 3 else ["x0", "k"]):
             outs = [":ei"] * k + ([rnd_out(rng, end)] if end else [])
             out.append(scen(0, [scr(1, outs), rng.choice(PASSING)]))
             if k:
                 cut = rng.randrange(k + 1)
-                outs2 = [":ei"] * cut + [rnd_out(rng, rng.choice(["s", "c"]))] + [":ei"] * (k - cut) + ([rnd_out(rng, end)] if end else [])
+                outs2 = [":ei"] * cut + [rnd_out(rng, "s")] + [":ei"] * (k - cut) + ([rnd_out(rng, end)] if end else [])
                 out.append(scen(rng.randrange(2), [scr(1, outs2), rng.choice(PASSING)]))
     for sig in range(1, 127):
         for core in (0, 1):
@@ -195,10 +195,14 @@ def generate(tier, rng):
             out.append(scen(0, [real(body=body, inj=[":ei"] * k), real()]))
             if body == [":r 13"]:
                 out.append(scen(0, [real(body=body, inj=[":re"] + [":ei"] * k), real()]))
+    # failures before the fork (initial count > 0), then children that pass / fail: the verdict must be the child's own
+    for first in ([":plain 1"], [scr(0, [])], [scr(1, [":k 9 0"])], [":plain 1", scr(1, [":s 13", ":x 3"])]):
+        for a in (0, 1):
+            out.append(scen(a, first + [real(), ":plain 0", real(body=[":f"]), real(td=[":r 11"]), real()]))
     out.append(scen(0, [real(inj=[":er"]), real()]))
     out.append(scen(0, [real(body=[":r 13"], inj=[":re", ":er"]), real()]))
     # (c) sequences
-    n = 700 if quick else 12000
+    n = 2500 if quick else 40000
     for _ in range(n):
         m = rng.randrange(1, 7)
         ts = [rnd_test(rng, tol) for _ in range(m)]
